@@ -14,7 +14,7 @@ use serde::{Deserialize, Serialize};
 use std::io::Cursor;
 
 pub const LEVEL: &str = "exploration";
-pub const RULE: &str = "four families. (a) message model: generated shapes (depth <= 4, width <= 6) over u8/U16/U32 of both endiannesses, byte blocks, Check, Trame, Component with DynOption Size (sized block or array) and SkipField, trailing Option, Array; oracle = length() == bytes, to_vec == 30-line reference serializer, reading bytes+sentinel into an empty message of the same shape reproduces every leaf (visit()) and leaves the sentinel unread. (b) PER: every length 0..0x7fff, every u16 integer (u32 by boundaries and sampling; all 2^32 in thorough), integer16 offset/minimum lattice, 6-element OIDs (including 'differs in one element must compare unequal'), octet strings at every length boundary; cross-decoding with the reference PER codec both ways. (c) ASN.1: generated value trees over the shapes MCS and CredSSP use, to_der == reference DER, from_der/from_ber of reference encodings (short and long length forms) reproduce the values; TSRequest helpers. (d) GCC: conference-create request decoded by the reference T.124 decoder for user data of 0..3000 bytes; every generated reference response through read_conference_create_response (channel ids, version enum). Non-trivial = shape with a dynamic option / array / option, PER value >= 0x80, ASN.1 tree with nesting, GCC response with >= 1 channel or unknown block; distinct by hash of the case.";
+pub const RULE: &str = "four families. (a) message model: generated shapes (depth <= 4, width <= 6) over u8/U16/U32 of both endiannesses, byte blocks, Check, Trame, Component with DynOption Size (sized block or array) and SkipField, trailing Option, Array; oracle = length() == bytes, to_vec == 30-line reference serializer, reading bytes+sentinel into an empty message of the same shape reproduces every leaf (visit()) and leaves the sentinel unread. (b) PER: every length 0..0x7fff, every u16 integer (u32 by boundaries and sampling; all 2^32 in thorough), integer16 offset/minimum lattice, 6-element OIDs (including 'differs in one element must compare unequal'), octet strings at every length boundary; cross-decoding with the reference PER codec both ways. (c) ASN.1: generated value trees over the shapes MCS and CredSSP use, to_der == reference DER, from_der/from_ber of reference encodings (short and long length forms) reproduce the values; TSRequest helpers; asn1-large: octet strings at every length-form boundary up to 70000 bytes and sequences of up to 5000 elements, through the same round trips. (d) GCC: conference-create request decoded by the reference T.124 decoder for user data of 0..3000 bytes; every generated reference response through read_conference_create_response (channel ids, version enum). Non-trivial = shape with a dynamic option / array / option, PER value >= 0x80, ASN.1 tree with nesting, GCC response with >= 1 channel or unknown block; distinct by hash of the case.";
 
 // ------------------------------------------------------------------------------------------
 // (a) message model
@@ -1479,6 +1479,26 @@ pub fn check(rep: &Report) {
     rep.list("sized-boundaries", sized, run_model);
     rep.random("model", tier.n(600_000, 20_000_000), 200, decode_model, run_model);
     rep.random("asn1", tier.n(200_000, 6_000_000), 160, decode_asn, run_asn);
+    // large values: octet strings at every DER length-form boundary up to 70000 bytes (the user data of an MCS connect response
+    // may fill a whole TPKT frame, a CredSSP token has no limit of its own), and sequences of many elements
+    {
+        let mut big = Vec::new();
+        for n in [126usize, 127, 128, 129, 254, 255, 256, 257, 4095, 4096, 16382, 16383, 16384, 16385, 32767, 32768, 65534, 65535, 65536, 65537, 70000] {
+            let data: Vec<u8> = (0..n).map(|k| (k * 31 + n) as u8).collect();
+            for lf in [1u8, 2, 3] {
+                big.push(AsnCase::Tree { node: Node::Seq(vec![Node::Octets(data.clone())]), long_form: lf });
+                big.push(AsnCase::Tree { node: Node::AppSeq(102, vec![Node::Enum(0), Node::Int(7), Node::Seq((0..8).map(|i| Node::Int(i)).collect()), Node::Octets(data.clone())]), long_form: lf });
+            }
+            big.push(AsnCase::TsRequest { nego: data.clone() });
+            big.push(AsnCase::TsValidate { pubkey: data.clone(), long_form: 1 });
+            big.push(AsnCase::TsAuthenticate { nego: data.clone(), pubkey: data });
+        }
+        for n in [100usize, 1000, 1023, 1024, 1025, 1500, 5000] {
+            big.push(AsnCase::Tree { node: Node::Seq(vec![Node::SeqOf((0..n).map(|k| Node::Int((k as u32).wrapping_mul(2654435761u32))).collect())]), long_form: 1 });
+            big.push(AsnCase::Tree { node: Node::Seq(vec![Node::SeqOf((0..n).map(|k| Node::Seq(vec![Node::Explicit(0, Box::new(Node::Octets(vec![k as u8; 3])))])).collect())]), long_form: 2 });
+        }
+        rep.list("asn1-large", big, run_asn);
+    }
     rep.random("gcc", tier.n(200_000, 6_000_000), 96, decode_gcc, run_gcc);
     rep.enumerate(
         "gcc-request-lengths",
